@@ -17,13 +17,26 @@ TRUSTED_BASE = ["the key of the collector is modelled as the canonical form that
                 "CutWithEnzymeByName is a parameter of the GoldenGate model (C10); GoldenGate = CircularLigate on the concatenated cuts is "
                 "checked at implementation level on every gg case"]
 ASSUMPTIONS = ["fragments and parts are upper-case ACGT", "a duplicated fragment value denotes the same fragment species (a ring uses a value at most once)"]
-PARTIAL = []
+PARTIAL = ["ligate_complete: 'none missing' is proved for SIMPLE rings (junction overhangs pairwise distinct and non-palindromic, every "
+           "fragment in either orientation) — all rings of a designed assembly; for closed chains with a repeated or palindromic "
+           "junction overhang only soundness is claimed (the code returns some of them, see notes/findings/C09.md observations A, B)",
+           "ligate_unique: proved for the canonical-form key (key_eq_iff: equal key <=> same molecule); the step from the key to the "
+           "BLAKE3 hash the code compares is hash_eq_iff_key_eq under an explicit no-collision hypothesis",
+           "ligate_schedule / ligate_terminates: theorems about ALL runs of the Step system (Model/Ligate.lean); data races and "
+           "scheduler fairness are not expressible there and are covered only by the GOMAXPROCS 1/2/16 and -race runs"]
 TECHNIQUE = ("Lean 4 proof about a model of the spawn tree and of the goroutine system (invariant + variant over all interleavings); "
              "independent ring spec; differential correspondence incl. GOMAXPROCS variants and the race detector")
-LEVEL_TEXT = ("All six clauses are kernel-checked theorems about the model for pools of every size (Props/C09): ligate_sound, "
-              "ligate_complete, ligate_unique, ligate_order, ligate_schedule, ligate_terminates. The model is tied to clone.CircularLigate / "
-              "clone.GoldenGate by correspondence on every generated pool in four input orders, compared as sets of canonical forms "
-              "computed in Lean from the returned sequences, and every real result is judged against an independent enumeration of the rings.")
+LEVEL_TEXT = ("All six clauses are kernel-checked theorems about the model for pools of every size (Props/C09): ligate_sound (every construct "
+              "sent is, letter for letter, the molecule of a closed chain of distinct oriented pool fragments starting at the seed), "
+              "ligate_complete (every simple ring has its molecule up to rotation/strand in the result; rings traversed only by flipped "
+              "fragments are found from the other strand), ligate_unique (+ key_eq_iff: equal key <=> same molecule), ligate_order (the "
+              "multiset sent and the key set returned are invariant under permutation of the pool), ligate_schedule (over every interleaving "
+              "of the goroutine system: nothing sent on a closed channel, close after the last send, every maximal run delivers a permutation "
+              "of all sends, same key set), ligate_terminates (fuel never exhausted, depth <= |pool|, every run bounded by a variant). The "
+              "model is tied to clone.CircularLigate / clone.GoldenGate by correspondence on every generated pool in four input orders, "
+              "compared as sets of canonical forms computed in Lean from the returned sequences; every real result is judged against an "
+              "independent enumeration of the rings (equality with the simple rings for designed assemblies), GoldenGate additionally against "
+              "the designed fragments and as CircularLigate of the real cuts.")
 LEVEL_NOTE = ("Trusted: Lean kernel; harness + driver; the Go runtime is represented by an interleaving semantics (races, scheduler "
               "fairness not expressible: covered only by GOMAXPROCS 1/2/16 and -race runs); BLAKE3 collision-freeness; C12 for the least rotation.")
 HARNESS_BIN = "run-clone"
@@ -199,7 +212,13 @@ def cases(seed, tier):
     for i in range(n):
         k = r.randint(1, 6)
         strict = r.random() < 0.8
-        ring, extra = design(r, k, 3, strict=strict, decoys=r.choice([0, 0, 1, 2, 3]), budget=600 if quick else 5000)
+        if strict:
+            ring, extra = design(r, k, 3, strict=True, decoys=r.choice([0, 0, 1, 2, 3]), budget=600 if quick else 5000)
+        else:
+            # overhang sets with reverse-complement pairs let fragments join in unintended ways: the recursion tree
+            # grows factorially, keep these pools small
+            ring, extra = design(r, min(k, 4), 2, strict=False, decoys=r.choice([0, 1]), budget=60)
+            ring = ring[:7]
         yield lig_case(r, "design" if strict else "design-loose", with_flips(r, ring + extra))
     # the largest library shape the property names
     if not quick:
@@ -253,8 +272,12 @@ def cases(seed, tier):
         site = ENZ[enz][0]
         k = r.randint(1, 6)
         strict = r.random() < 0.9
-        ring, extra = design(r, k, 3, strict=strict, decoys=r.choice([0, 0, 1, 2]), avoid=(site, rc(site)),
-                             budget=300 if quick else 3000)
+        if strict:
+            ring, extra = design(r, k, 3, strict=True, decoys=r.choice([0, 0, 1, 2]), avoid=(site, rc(site)),
+                                 budget=300 if quick else 3000)
+        else:
+            ring, extra = design(r, min(k, 4), 2, strict=False, decoys=r.choice([0, 1]), avoid=(site, rc(site)), budget=60)
+            ring = ring[:7]
         c = gg_case(r, "design" if strict else "design-loose", enz, ring, extra, rawparts=r.choice([0, 0, 1]))
         if c:
             made += 1
@@ -265,6 +288,7 @@ def cases(seed, tier):
     yield ["lig", "ood-mixedcase", "acc,AATG,GCTT,0;ggt,GCTT,AATG,0", "1 0", "0 1", "1 0"]
     yield ["lig", "ood-iupac", "ANC,AATG,GCTT,0;GGT,GCTT,AATG,0", "1 0", "0 1", "1 0"]
     yield ["lig", "ood-invalid-letters", "AXC,AATG,AATG,0;GJT,GCTT,GCTT,0;ACG,CCGA,CCGA,0", "2 1 0", "1 0 2", "1 2 0"]
+    yield ["lig", "ood-nonascii", "A\u017fC,AATG,AATG,0;G\u017fC,CCGA,CCGA,0", "1 0", "0 1", "1 0"]
     yield ["gg", "ood-enzyme", "EcoRI", "ACGTACGTAC,L", "0", "0", "0"]
 
 
